@@ -190,6 +190,7 @@ type hreq struct {
 	Account string            `json:"account,omitempty"`
 	Key     string            `json:"key,omitempty"`
 	AccMeta string            `json:"set_account_meta,omitempty"` // script: also set_account_meta(@<dst>, "tag", <this>)
+	TS      string            `json:"timestamp,omitempty"`        // create / script: the transaction's timestamp as the client spells it
 }
 
 func isDry(v string) bool {
@@ -282,6 +283,9 @@ func (q hreq) http() *http.Request {
 	case "create":
 		method, path = "POST", base+"/transactions"
 		body = fmt.Sprintf(`{"postings":%s,"reference":%q,"metadata":%s}`, postings(), q.Ref, md)
+		if q.TS != "" {
+			body = fmt.Sprintf(`{"postings":%s,"reference":%q,"metadata":%s,"timestamp":%q}`, postings(), q.Ref, md, q.TS)
+		}
 	case "script":
 		method, path = "POST", base+"/transactions"
 		p := q.Posts[0]
@@ -473,6 +477,11 @@ func runHistory(r *vx.Run, h []hreq) {
 						if res.TxID != tx.ID.String() {
 							r.FailP("C06", "http:answer-differs-from-entry:"+q.API+":"+q.Kind, in, fmt.Sprintf("answered %q, entry %s", res.TxID, tx.ID), size)
 						}
+						if q.TS != "" && q.Kind == "create" {
+							if want, err := time.Parse(time.RFC3339Nano, q.TS); err == nil && !tx.Timestamp.Time.Equal(want) {
+								r.FailP("C09", "http:committed-timestamp-is-not-the-requested-instant:"+q.API, in, fmt.Sprintf("requested %s, committed %s", q.TS, tx.Timestamp.Time.Format(time.RFC3339Nano)), size)
+							}
+						}
 						// a read started after the response sees the write (default point in time = now)
 						for _, base := range []string{"/api/ledger/l0", "/api/ledger/v2/l0"} {
 							rr := httptest.NewRecorder()
@@ -612,6 +621,9 @@ func gen(g *vx.Rng) []hreq {
 			}
 			if g.Chance(1, 2) {
 				q.Meta = map[string]string{"k": fmt.Sprint(g.Intn(5))}
+			}
+			if g.Chance(1, 3) {
+				q.TS = []string{"2023-03-04T10:00:00Z", "1965-03-04T10:00:00Z", "1970-01-01T00:00:00Z", "1969-12-31T23:59:59.5Z", "2023-03-04T10:00:00.123456+02:00", "0001-01-01T00:00:01Z", "1900-02-28T12:00:00-05:00"}[g.Intn(7)]
 			}
 			txs++
 		case c < 5:
